@@ -27,9 +27,11 @@ def _tlc_phase(prop, models, probes, families, timeout):
     """All TLC runs of the model level and of the generation, at most 4 JVMs at a time with one worker each."""
     import concurrent.futures
     jobs = []
-    for fam, adds, post, invs in models:
-        jobs.append(("model", (fam, adds, post, invs), lambda fam=fam, adds=adds, post=post, invs=invs:
-                     build.model(fam, adds, post, build.REPAIRED, invs, timeout=timeout, workers=1)))
+    for mdl in models:
+        fam, adds, post, invs = mdl[:4]
+        br = mdl[4] if len(mdl) > 4 else 1
+        jobs.append(("model", (fam, adds, post, invs), lambda fam=fam, adds=adds, post=post, invs=invs, br=br:
+                     build.model(fam, adds, post, build.REPAIRED, invs, timeout=timeout, workers=1, br=br)))
     for label, fam, adds, post, fix, inv in probes:
         jobs.append(("probe", (label, fam, adds, post, inv), lambda fam=fam, adds=adds, post=post, fix=fix, inv=inv:
                      build.model(fam, adds, post, fix, [inv], timeout=timeout, workers=1)))
@@ -261,17 +263,20 @@ def c20(tier, repo=None):
               ("D7: a second Compile appends to the handler maps the first runnable shares", "wf", 0, 1, dict(build.REPAIRED, FixD7=False), "FrozenMaps")]
     if tier == "quick":
         models = [("seq", 2, 0, ["AllOutcome", "FrozenMaps"]), ("seqp", 2, 0, ["AllOutcome", "FrozenMaps"]), ("wf", 0, 2, ["AllOutcome", "FrozenMaps"]),
-                  ("wfin", 3, 0, ["AllOutcome", "FrozenMaps"]), ("flow", 1, 1, ["AllOutcome", "FrozenMaps"])]
+                  ("wfin", 3, 0, ["AllOutcome", "FrozenMaps"]), ("flow", 1, 1, ["AllOutcome", "FrozenMaps"]),
+                  ("chain", 2, 2, ["AllOutcome", "FrozenMaps"]), ("cyc", 3, 0, ["AllOutcome", "FrozenMaps"], 2)]
         fams = [dict(fam="seq", adds=2, post=0), dict(fam="seqp", adds=2, post=0), dict(fam="wf", adds=0, post=2), dict(fam="wfin", adds=3, post=0),
-                dict(fam="flow", adds=1, post=1),
+                dict(fam="flow", adds=1, post=1), dict(fam="chain", adds=2, post=2), dict(fam="cyc", adds=3, post=0, br=2),
                 dict(fam="seqs", adds=2, post=1, simulate="num=240", depth=50, limit=5000),
                 dict(fam="seq", adds=4, post=2, aftererr=2, simulate="num=320", depth=70, limit=8000)]
         limit = 40000
     else:
         models = [("seq", 2, 0, ["AllOutcome", "FrozenMaps"]), ("seqp", 2, 0, ["AllOutcome", "FrozenMaps"]), ("seqs", 1, 1, ["AllOutcome", "FrozenMaps"]),
-                  ("wf", 0, 3, ["AllOutcome", "FrozenMaps"]), ("wfin", 4, 1, ["AllOutcome", "FrozenMaps"]), ("flow", 2, 1, ["AllOutcome", "FrozenMaps"])]
+                  ("wf", 0, 3, ["AllOutcome", "FrozenMaps"]), ("wfin", 4, 1, ["AllOutcome", "FrozenMaps"]), ("flow", 2, 1, ["AllOutcome", "FrozenMaps"]),
+                  ("chain", 3, 3, ["AllOutcome", "FrozenMaps"]), ("cyc", 3, 0, ["AllOutcome", "FrozenMaps"], 2)]
         fams = [dict(fam="seq", adds=2, post=0), dict(fam="seqp", adds=2, post=0), dict(fam="seqs", adds=1, post=1), dict(fam="wf", adds=0, post=3),
-                dict(fam="wfin", adds=4, post=1),
+                dict(fam="wfin", adds=4, post=1), dict(fam="chain", adds=3, post=3), dict(fam="cyc", adds=3, post=0, br=2),
+                dict(fam="cyc", adds=5, post=1, br=3, simulate="num=3000", depth=80),
                 dict(fam="flow", adds=2, post=1, timeout=1500),
                 dict(fam="seqs", adds=3, post=1, aftererr=2, simulate="num=2500", depth=60),
                 dict(fam="seqp", adds=4, post=2, aftererr=2, br=2, simulate="num=3000", depth=80),
